@@ -156,9 +156,9 @@ func genBatchReq(r *fw.Rng) *batchReq {
 	b := &batchReq{origin: -1000}
 	var valid, invalid []int
 	if r.Bool() {
-		b.proto, valid, invalid = "CMPP", []int{0, 8, 9, 15}, []int{1, 3, 4, 25, 200, -1}
+		b.proto, valid, invalid = "CMPP", []int{0, 8, 9, 15}, []int{1, 3, 4, 25, 200, -1, 256, 264, 265, 271, -248, -241, 65536, 65551, 1 << 24}
 	} else {
-		b.proto, valid, invalid = "SMPP", []int{0, 1, 3, 8, 99}, []int{2, 4, 9, 255, -1}
+		b.proto, valid, invalid = "SMPP", []int{0, 1, 3, 8, 99}, []int{2, 4, 9, 255, -1, 256, 257, 259, 264, 355, -248, -157, 65536, 65635, 1<<24 + 8}
 	}
 	// non-empty subset
 	mask := 1 + r.Intn(1<<uint(len(valid))-1)
